@@ -85,6 +85,8 @@ fn gen_case(seed: u64, idx: u64) -> Case {
             let a = if arena != "top" && a > base.wrapping_add(0x1000) { base } else { a };
             // top arena: an address that wrapped past 2^64 becomes a region ending at 2^64 - 0/+1/+2
             let a = if arena == "top" && a < 0x8000_0000_0000_0000 { 0u64.wrapping_sub(n.max(3)).wrapping_add(r.below(3)) } else { a };
+            // top arena: a quarter of the writes end exactly at 2^64 (the last byte of the address space), or 1-2 beyond
+            let a = if arena == "top" && n > 0 && r.chance(1, 4) { 0u64.wrapping_sub(n.max(3)).wrapping_add(*r.pick(&[0u64, 0, 0, 0, 1, 2])) } else { a };
             for (b, m) in &regions {
                 let s = shape(a as u128, n as u128, *b as u128, *m as u128);
                 if s != "disjoint" && s != "empty-other" { overlapping = true; }
